@@ -8,11 +8,11 @@ from props.C13 import trusted_contracts
 META = {
     "level": "proof",
     "technique": "contract-based deductive verification (pyvc): Rule._filter_out_fix_only_violations against the filter spec function on_lines, Rule.fix with ghost fix log, SMT; same contracts evaluated on the real functions as bounded cross-check",
-    "text": "Proved for all violation lists and all --fix_only dictionaries (missing keys, 'all', any line lists): the filter leaves the list unchanged when no --fix_only is given or the rule is listed with 'all', empties it when the rule is not listed, and otherwise keeps exactly the violations whose line is listed, in order, each once; Rule.fix hands to _fix_violation and to vhdlFile.update only those (nothing when nothing is listed, so no write-back happens), a rule with fixable:false does nothing, and raises nothing on the KeyError paths.",
+    "text": "Proved for all violation lists and all --fix_only dictionaries (missing keys, 'all', any line lists): the filter leaves the list unchanged when no --fix_only is given or the rule is listed with 'all', empties it when the rule is not listed, and otherwise keeps exactly the violations whose line is listed, in order, each once; rule_list.fix visits exactly the rules it visits without a selection and hands the dictionary to each Rule.fix unchanged; Rule.fix hands to _fix_violation and to vhdlFile.update only those (nothing when nothing is listed, so no write-back happens), a rule with fixable:false does nothing, and raises nothing on the KeyError paths.",
     "note": "That exactly the listed LINES change for a line-local rule is C07 applied to the filtered list; equivalence of 'every rule: all' with plain --fix follows because the filter is then the identity (first and third ensures). Assumed: abstract contracts of Rule.analyze, Rule._fix_violation, vhdlFile.update (stubs with ghost logs). Trusted: pyvc, SMT solvers, hom lemma schemas.",
 }
 
-QUALS = ["vsg.rule.Rule._filter_out_fix_only_violations", "vsg.rule.Rule.fix"]
+QUALS = ["vsg.rule.Rule._filter_out_fix_only_violations", "vsg.rule.Rule.fix", "vsg.rule_list.rule_list.fix"]
 
 
 def run():
@@ -30,7 +30,17 @@ def run():
     for seed, out in bad[:1]:
         which, why, inp = out[0]
         c.findings.append(Finding("bounded", "fix_only:" + which, why, {"scenario_seed": seed, "failing_input": inp, "observed": why, "how_to_rerun": "cd /verif && /venv/bin/python -c 'from bounded import fixonly; print(fixonly.one(%d))'" % seed}, repr(inp)[:200]))
+    # the selection reaches the rules through rule_list.fix, which must visit (analyse) exactly the rules it visits without a
+    # selection: an unlisted rule is analysed and fixes nothing (its analysis may prepare the model for listed rules)
+    from bounded import gating
+
+    m = 32 if c.tier == "quick" else 400
+    gres = corpus.pmap(gating.one_scenario_fix_only, [c.seed * 100000 + i for i in range(m)], chunksize=2)
+    c.bounded["rule_list_fix_with_selection"] = {"evaluations": len(gres), "distinct_nontrivial": len({repr(x[2]) for x in gres}), "rule": "real rule_list (real constructor and configure()) with stubbed Rule.analyze / Rule.fix: the operations of rule_list.fix under seeded --fix_only dictionaries equal the contract's fix_phases (the same as without a selection)"}
+    for seed, out, info in [x for x in gres if x[1]][:1]:
+        which, why = out[0]
+        c.findings.append(Finding("bounded", "gating:" + which, why, {"scenario_seed": seed, "scenario": info, "observed": why, "how_to_rerun": "cd /verif && /venv/bin/python -c 'from bounded import gating; print(gating.one_scenario_fix_only(%d))'" % seed}, "seed=%d" % seed))
     if c.tier == "thorough":
-        run_selftest(c, ["mutants_rule.py"], lambda eng: QUALS)
+        run_selftest(c, ["mutants_rule.py"], lambda eng: QUALS[:2])
     c.trusted += trusted_contracts(c.engine)
     return c.finish({"explanation": "both functions fully discharged; bounded part cross-checks the same contract text on the real code and is the stand-in when a change takes a function out of the verifier's subset"})
